@@ -90,7 +90,99 @@ const EXTRA: [(&str, &str); 7] = [
     ("<several rust imports>", "import rust::uuid\nimport rust::rand\nimport rust::regex\nimport rust::anyhow\nimport rust::log\nfrom rust::std::collections import HashMap\n\ndef main() -> None:\n    pass\n"),
 ];
 
-pub fn run(out: &mut Out, _tier: &str, _seed: u64, scratch: &str) {
+
+/// Module-tree stream: `ProjectGenerator::generate_nested` on generated path sets (few names, so that shared
+/// prefixes and module = directory clashes are common); what was written is read back per directory.
+fn modtree(out: &mut Out, tier: &str, seed: u64, scratch: &str) -> usize {
+    use incan::backend::project::ProjectGenerator;
+    use std::collections::{BTreeSet, HashMap};
+    let mut rng = crate::util::Rng::new(seed ^ 0xc12);
+    let names = ["a", "b", "c", "ab", "b_a", "z9"];
+    let n = if tier == "thorough" { 400 } else { 60 };
+    let code = "// Generated by the Incan compiler\n\n#![allow(unused_imports, dead_code, unused_variables)]\n\nuse incan_stdlib::prelude::*;\npub fn f() -> i64 {\n    return 1;\n}\n";
+    let mut sets: Vec<Vec<Vec<String>>> = vec![
+        vec![vec!["a".into()], vec!["a".into(), "b".into()], vec!["a".into(), "c".into(), "d".into()]],
+        vec![vec!["b".into(), "a".into()], vec!["a".into(), "b".into()], vec!["a".into()], vec!["b".into()]],
+    ];
+    for _ in 0..n {
+        let k = 1 + rng.below(6) as usize;
+        let mut set: BTreeSet<Vec<String>> = BTreeSet::new();
+        for _ in 0..k {
+            let depth = 1 + rng.below(3) as usize;
+            set.insert((0..depth).map(|_| names[rng.below(names.len() as u64) as usize].to_string()).collect());
+        }
+        // presented in a generated order (the model must not depend on it either)
+        let mut v: Vec<Vec<String>> = set.into_iter().collect();
+        for i in (1..v.len()).rev() {
+            v.swap(i, rng.below(i as u64 + 1) as usize);
+        }
+        sets.push(v);
+    }
+    let mut count = 0;
+    for (si, set) in sets.iter().enumerate() {
+        let mut dirs: BTreeSet<Vec<String>> = BTreeSet::new();
+        for p in set {
+            for i in 0..=p.len() {
+                dirs.insert(p[..i].to_vec());
+            }
+        }
+        let shown = set.iter().map(|p| p.join("/")).collect::<Vec<_>>().join(",");
+        let mut per_dir: HashMap<Vec<String>, BTreeSet<String>> = HashMap::new();
+        for rep in 0..3 {
+            let dir = format!("{scratch}/c12tree{si}_{rep}");
+            let _ = std::fs::remove_dir_all(&dir);
+            // a fresh map each time: a new hash seed, a new iteration order
+            let mut modules: HashMap<Vec<String>, String> = HashMap::new();
+            for p in set {
+                modules.insert(p.clone(), code.to_string());
+            }
+            let g = ProjectGenerator::new(&dir, "tree", true);
+            let res = catch(|| g.generate_nested(code, &modules).map_err(|e| e.to_string()));
+            for d in &dirs {
+                let obs = match &res {
+                    Err(m) => format!("panic {m}"),
+                    Ok(Err(e)) => format!("error {e}"),
+                    Ok(Ok(())) => {
+                        let read = |p: String| std::fs::read_to_string(p).ok();
+                        let mods = |text: &str, kw: &str| -> Vec<String> {
+                            text.lines().filter_map(|l| l.strip_prefix(kw).and_then(|r| r.strip_suffix(';'))).map(|x| x.to_string()).collect()
+                        };
+                        if d.is_empty() {
+                            let main = read(format!("{dir}/src/main.rs")).unwrap_or_default();
+                            let kids = mods(&main, "mod ");
+                            format!("- - {} {}", if kids.is_empty() { "none" } else { "main" }, kids.join(","))
+                        } else {
+                            let own = read(format!("{dir}/src/{}.rs", d.join("/")));
+                            let modrs = read(format!("{dir}/src/{}/mod.rs", d.join("/")));
+                            let ko = own.as_deref().map(|t| mods(t, "pub mod ")).unwrap_or_default();
+                            let km = modrs.as_deref().map(|t| mods(t, "pub mod ")).unwrap_or_default();
+                            let (car, kids) = match (ko.is_empty(), km.is_empty()) {
+                                (true, true) => ("none", vec![]),
+                                (false, true) => ("own", ko),
+                                (true, false) => ("mod", km),
+                                (false, false) => ("both", [ko, km].concat()),
+                            };
+                            format!("{} {} {car} {}", own.is_some() as u8, modrs.is_some() as u8, kids.join(","))
+                        }
+                    }
+                };
+                per_dir.entry(d.clone()).or_default().insert(obs);
+            }
+            let _ = std::fs::remove_dir_all(&dir);
+        }
+        for d in &dirs {
+            let obs = &per_dir[d];
+            let dshow = if d.is_empty() { "-".to_string() } else { d.join("/") };
+            let real = if obs.len() == 1 { obs.iter().next().cloned().unwrap_or_default() } else { format!("DIFFERS-IN-PROCESS {}", obs.iter().cloned().collect::<Vec<_>>().join(" | ")) };
+            out.case(&format!("c12 modtree {shown} {dshow} 0"), &real);
+            count += 1;
+        }
+    }
+    count
+}
+
+pub fn run(out: &mut Out, tier: &str, seed: u64, scratch: &str) {
+    let tree_cases = modtree(out, tier, seed, scratch);
     let mut sources: Vec<(String, String)> = corpus::files();
     for (n, s) in EXTRA {
         sources.push((n.to_string(), s.to_string()));
@@ -155,5 +247,5 @@ pub fn run(out: &mut Out, _tier: &str, _seed: u64, scratch: &str) {
     unsafe { std::env::set_var("PATH", path) };
     let _ = std::fs::remove_dir_all(&ws);
     let _ = std::fs::remove_dir_all(&stub);
-    out.meta(&serde_json::json!({"sources": sources.len(), "projects": projects.len(), "in_process_differences": twice_differs}));
+    out.meta(&serde_json::json!({"sources": sources.len(), "projects": projects.len(), "in_process_differences": twice_differs, "module_tree_cases": tree_cases}));
 }
